@@ -26,12 +26,12 @@ check('C05', 'call-graph reachability (no allocation request reachable from any 
 
 check('C07', 'call-graph exclusion (capacity-changing callees reachable only through grow) + control-dependence of every grow call on a capacity comparison + abstract interpretation of the growth function',
       'Decides in full, for the analysed matrix, the clauses "capacity never decreases except through shrink_to_fit/move/swap", "an operation whose result fits does not reallocate" and "after reserve(n) capacity()>=n"; structural only for size()<=capacity().',
-      'Also: NEED-SIZE, MAX-SIZE (max_size() is the maximum of size_type for the dynamic vectors - signed archetypes included - and the capacity for the fixed ones). Partial: run-time inequalities and preserved element addresses over histories are not decided; see DESIGN.md C07.',
+      'Also: RESERVE-POST (every path through reserve(n) grows or has compared n with capacity() itself), NEED-SIZE, MAX-SIZE (max_size() is the maximum of size_type for the dynamic vectors - signed archetypes included - and the capacity for the fixed ones). Partial: run-time inequalities and preserved element addresses over histories are not decided; see DESIGN.md C07.',
       'DESIGN.md section 4, C07')
 
 check('C08', 'rule instances over the instantiated program: throw-type/condition table, computation-type (integral promotion) check of every capacity request, growth-function interpretation',
       'Decides the error-type clauses and "no size computation wraps around" per size_type archetype; check-before-mutation and leak clauses come from the typestate rules listed in the evidence.',
-      'Also: CHECK-FIRST (path-sensitive: the limit test precedes the first modification), EXACT-WHO (no uintmax_t request reaches the exact path of SafeNextCapacity, which has no overflow test), strictness of the swap_sizetype range test, RANGE-MEASURE (a multi-pass range is measured and tested against the limit once, before anything is modified). Partial: "contents exactly as before" is decided in its structural form.',
+      'Also: THROW-REACH (no noexcept(true) function, the ADL swap between different N included, reaches the capacity check: the caller gets the exception, not std::terminate), CHECK-FIRST (path-sensitive: the limit test precedes the first modification), EXACT-WHO (no uintmax_t request reaches the exact path of SafeNextCapacity, which has no overflow test), strictness of the swap_sizetype range test, RANGE-MEASURE (a multi-pass range is measured and tested against the limit once, before anything is modified). Partial: "contents exactly as before" is decided in its structural form.',
       'DESIGN.md section 4, C08')
 
 check('C18', 'abstract interpretation (affine lower bounds with clamp) of the growth function + loop/once-per-path rule for capacity adjustments',
@@ -49,19 +49,19 @@ check('C10', 'effect-ordering (typestate) analysis: no read of an element-refere
       'Mutating members of this (clear, erase, ...) count as element-moving effects; pointer re-basing idioms are interpreted exactly. Partial: the resulting sequence itself is C01. rvalue arguments are assumed not to alias (as std::vector).',
       'DESIGN.md section 4, C10')
 
-check('C01', 'typestate / dataflow rules over the instantiated program (size-word write discipline, capacity-check dominance, single-pass iterator use, self-assignment distance) + record-layout facts',
-      'Decides six structural clauses that are each necessary for C01 (inline encoding discipline, inline span, single traversal of input ranges, no element operation for an empty erase, capacity check before every construct incl. base bookkeeping, size commit follows lifetime op); the behavioural equality with std::vector over histories is NOT decided.',
-      'Also decided: RET-POS (abstract interpretation - storage versions x linear offsets - of every position-returning member: the returned iterator is the index of the position argument in the current storage), VALUE-INIT (who-may-call: no default-initialisation in the vector classes), BYTECMP, ALIAS, result types (SIG witnesses), SIGN-DIFF (no difference of two unsigned sizes is computed in the narrow unsigned type and then widened to a signed one). Partial: necessary conditions only; element sequences over histories are not decided.',
+check('C01', 'array-segmentation abstract interpretation of every inserting / removing / replacing vector member (segment bounds = linear forms over size, position, count; Fourier-Motzkin constraint store; helpers inlined; memory algorithms as transformers; final storage compared with the std::vector result) + typestate / dataflow rules over the instantiated program (size-word write discipline, capacity-check dominance, single-pass iterator use, union-alternative state) + record-layout facts',
+      'SEG-LAYOUT decides, for every instantiation of the matrix and every N, P, C at once, that each of insert x5 / emplace / erase x2 / push_back / emplace_back / pop_back / clear / resize x2 / assign x3 / append x4 leaves on every normal path exactly the storage std::vector leaves (which slot holds which old element, the new elements in order, size(), nothing alive beyond it): the one-step refinement of C01 for these operations, multi-pass ranges, normal paths. Plus structural clauses each necessary for C01 (inline encoding discipline, inline span, single traversal of input ranges, capacity check before every construct, size commit follows lifetime op). Sequences over whole histories follow by induction only for the operations covered; exceptional paths, single-pass ranges, swap / assignment operators and element values are not decided by it.',
+      'Also decided: RET-POS (abstract interpretation - storage versions x linear offsets - of every position-returning member: the returned iterator is the index of the position argument in the current storage), VALUE-INIT (who-may-call: no default-initialisation in the vector classes), BYTECMP, ALIAS, result types (SIG witnesses), UNION-STATE (the heap pointer of the pointer / inline-elements union is read only where the vector is known to be on the heap; requirements of private helpers travel to their call sites), SIGN-DIFF (no difference of two unsigned sizes is computed in the narrow unsigned type and then widened to a signed one). Partial: necessary conditions only; element sequences over histories are not decided.',
       'DESIGN.md section 4, C01')
 
-check('C02', 'who-may-call analysis of byte copies over the resolved call graph (incl. libstdc++ bodies) per element archetype + overload-pair effect signatures + typestate (normal paths)',
+check('C02', 'who-may-call analysis of byte copies over the resolved call graph (incl. libstdc++ bodies) per element archetype + overload-pair effect signatures + typestate (normal paths) + array-segmentation abstract interpretation with slot liveness (construct only on raw, assign / destroy / read only on alive, exactly [0,size()) alive on return)',
       'Second sentence of C02 decided in full for the matrix: no memcpy/memmove/realloc touches an E* for non-relocatable E anywhere in the call graph, reallocate only for relocatable E, overload pairs consistent. First sentence: necessary structural clauses (hole re-filled once, size commits matched, no self-assignment, temporaries released, destructor layer present).',
-      'Also: SELF-MOVE (no element assigned from a possibly identical element designator of the same container), LIVE-COUNT (the "already constructed" count given to move_n / assign_n / fill is the size at the call), SHIFT-KEEP (for element types that are not trivially relocatable shift_right neither destroys nor relocates the vacated slots: its consumers assign onto them). Partial: exactly-once as a count over histories is not decided.',
+      'Also: SEG-LAYOUT (slot liveness of every element-moving vector member on normal paths, for every size / position / count: the static form of constructed-once / destroyed-once per operation, incl. no range move-assigned onto itself), SELF-MOVE (no element assigned from a possibly identical element designator of the same container), LIVE-COUNT (the "already constructed" count given to move_n / assign_n / fill is the size at the call), SHIFT-KEEP (for element types that are not trivially relocatable shift_right neither destroys nor relocates the vacated slots: its consumers assign onto them). Partial: exactly-once as a count over histories is not decided.',
       'DESIGN.md section 4, C02')
 
 check('C06', 'argument-provenance and typestate rules on allocator call sites (who passes which word), release-on-all-heap-paths analysis, hand-over effect analysis',
       'Decides that every deallocate/reallocate call site passes the block with the capacity word that travels with it, that every path that abandons or overwrites a storage pointer released the block first, that hand-over transfers pointer+capacity jointly without element operations, and that reallocate is reached only for relocatable element types.',
-      'Also: BLOCK (fresh blocks owned or given back on every exit), XALLOC (buffers exchanged only between equal allocator type and size_type), STALE-READ (the capacity travels with the block in swap2). Partial: exactly-once as a count over histories and unequal stateful allocators are not decided.',
+      'Also: UNION-STATE, BLOCK (fresh blocks owned or given back on every exit), XALLOC (buffers exchanged only between equal allocator type and size_type), STALE-READ (the capacity travels with the block in swap2). Partial: exactly-once as a count over histories and unequal stateful allocators are not decided.',
       'DESIGN.md section 4, C06')
 
 check('C13', 'typestate rules over every swap2 instantiation (ordered flavour pairs): throw-before-mutation ordering, size-word write discipline, noexcept soundness on the call graph, capacity-check dominance',
@@ -71,17 +71,17 @@ check('C13', 'typestate rules over every swap2 instantiation (ordered flavour pa
 
 check('C03', 'who-may-construct rule on comparator-typed expressions, post-dominance of sort/merge/unique after bulk writes, control dependence of the node reset, comparator-call counting, type-level const-view witnesses',
       'Decides structural clauses necessary for C03: stored comparator used for every decision, every bulk writer re-establishes sorted+unique with a stable sort, insert(node) empties the node only on insertion, no mutable access to the sorted storage, every lookup is one binary search.',
-      'Also: CMP-INIT (constructors / swap carry the comparator), NODE-MOVE / NODE-POS (a refused node keeps its value and reports the blocking element), MERGE-ORDER, EQ-ELEM (operator== / != compare the element sequences with the element equality, not with the comparator). Partial: equality with std::set over histories is not decided; the hint decision tree is C12.',
+      'Also: CMP-INIT (constructors / swap carry the comparator), NODE-MOVE / NODE-POS (a refused node keeps its value and reports the blocking element), LOOKUP-CASE (find / contains / count / equal_range / lower_bound / upper_bound evaluated per case of the key - nothing at or after it, absent with a successor, present - return what std::set returns), MERGE-ORDER, EQ-ELEM (operator== / != compare the element sequences with the element equality, not with the comparator). Partial: equality with std::set over histories is not decided; the hint decision tree is C12.',
       'DESIGN.md section 4, C03')
 
 check('C04', 'typestate analysis over SmallSet members with facts from isSmall()/isSmallContFull()/grow() per operand; membership-test dominance; comparator provenance',
       'Decides the state anchor of C04: exactly one of the two containers is written in each state on every path (incl. merge across template parameters), no add to the inline vector without a membership test, stored comparator everywhere, both backings analysed against the same rules.',
-      'Also: SS-PAIR (replacing one container as a whole replaces or empties the other), LEX-SIB, SS-GROW, ITER-STATE, one-sided unguarded access (ALT-SIB), EQ-ELEM. Partial: observable equality with std::set over histories is not decided.',
+      'Also: SS-PAIR (replacing one container as a whole replaces or empties the other), LEX-SIB, SS-GROW, ITER-STATE, one-sided unguarded access (ALT-SIB), EQ-ELEM; SS-DUP requires the membership scan to cover the whole inline vector. Partial: observable equality with std::set over histories is not decided.',
       'DESIGN.md section 4, C04')
 
 check('C11', 'typestate on the knowledge "large": results of removing calls are used only after re-testing the active container; sibling agreement of the alternative-selecting members; alternative access only in the matching state',
       'Decides that every iterator handed to the caller is built from the container active at the return (erase returns end() of the active container when the last element goes) and that begin/end/rbegin/rend/find agree on the alternative in both states.',
-      'Also: ITER-STATE, NODE-POS, ARROW-STAR (operator-> is the address of operator*, forward and reverse), ERASE-RET (in the inline state SmallSet::erase returns what the erase of the inline vector returned, not the stale last). Partial: "visits every element exactly once" is inherited from the underlying containers (trusted).',
+      'Also: POSTFIX-COPY (postfix ++ / -- return a copy taken before the step), ITER-STATE, NODE-POS, ARROW-STAR (operator-> is the address of operator*, forward and reverse), ERASE-RET (in the inline state SmallSet::erase returns what the erase of the inline vector returned, not the stale last). Partial: "visits every element exactly once" is inherited from the underlying containers (trusted).',
       'DESIGN.md section 4, C11')
 
 check('C19', 'comparator-call counting on the structured paths of the instantiated lookup members (max over paths, interprocedural through amc callees), loop / linear-algorithm exclusion',
@@ -96,7 +96,7 @@ check('C14', 'provenance analysis of every value stored into a pointer field / h
 
 check('C15', 'per-language-standard analysis of the instantiated memory algorithms: all-paths-return (path engine), typestate clean-up rule on the construct loops, construct-before-destroy ordering, byte-copy who-may-call, compile-time signature witnesses, cross-standard effect-signature comparison',
       'Decides for c++11/14/17/20 (different implementations selected) that every algorithm returns on all paths with the standard result type, destroys its partial output on throw, relocates as construct-then-destroy with the sources alive until all constructs succeeded, and byte-copies only when the trait allows.',
-      'Also: ADVANCE, EMUL-EFFECT (incl. value- vs default-initialisation from the initialisation style of the new-expressions), CURSOR, SAMETYPE (byte copies only between equal value types; cross-type copies instantiated), DIRECT-INIT / CTOR-FWD (construct_at direct-initialises with perfectly forwarded arguments in every standard). Partial: value equality of the constructed objects is not decided.',
+      'Also: ADVANCE, EMUL-EFFECT (incl. value- vs default-initialisation from the initialisation style of the new-expressions), CURSOR, SAMETYPE (byte copies only between equal value types; cross-type copies instantiated), CONTIG (a multi-element byte copy takes both addresses from raw pointers: random access is not contiguity; reverse_iterator instantiated), DIRECT-INIT / CTOR-FWD (construct_at direct-initialises with perfectly forwarded arguments in every standard). Partial: value equality of the constructed objects is not decided.',
       'DESIGN.md section 4, C15')
 
 check('C16', 'cross-configuration comparison of the instantiated program (structural hashes of every function body, API tables, effect signatures) over the lattice {c++11..20} x {extras on/off} x {NDEBUG on/off} + assert-purity + detection-idiom and constant witnesses',
